@@ -45,6 +45,20 @@ macro_rules! types_harness {
     };
 }
 
+/// `types_harness!` plus the fixed pre-allocation model of `String` (common.rs): for queries whose cost is
+/// dominated by text being appended piecewise to a growing `String` (`to_string()`, `write!(buffer, ..)`).
+macro_rules! types_harness_cap {
+    ($(#[$m:meta])* fn $name:ident() $body:block) => {
+        types_harness! {
+            #[kani::stub(alloc::string::String::new, crate::__verif_common::string_new_stub)]
+            #[kani::stub(alloc::string::String::push, crate::__verif_common::string_push_stub)]
+            #[kani::stub(alloc::string::String::push_str, crate::__verif_common::string_push_str_stub)]
+            $(#[$m])*
+            fn $name() $body
+        }
+    };
+}
+
 fn member(name: &str, kind: MemberKind) -> Member {
     Member { name: name.to_string(), kind }
 }
@@ -1025,7 +1039,7 @@ fn check_encode_type_names(primary: usize) {
     }
     let name_of = |k: u8| -> String {
         // concrete length, symbolic content
-        let mut s = String::with_capacity(1);
+        let mut s = String::with_capacity(8);
         s.push(NAMES4[k as usize] as char);
         s
     };
@@ -1095,3 +1109,102 @@ fn check_encode_type_names(primary: usize) {
 types_harness! { #[kani::unwind(8)] fn c08_encode_type_names_p() { check_encode_type_names(2) } }
 types_harness! { #[kani::unwind(8)] fn c08_encode_type_names_a() { check_encode_type_names(0) } }
 types_harness! { #[kani::unwind(8)] fn c08_encode_type_names_b() { check_encode_type_names(1) } }
+types_harness_cap! { #[kani::unwind(8)] fn c08_encode_type_names_p_cap() { check_encode_type_names(2) } }
+types_harness_cap! { #[kani::unwind(8)] fn c08_encode_type_names_a_cap() { check_encode_type_names(0) } }
+
+// ================================================================================= C08 / C09: hashStruct
+// `Types::struct_hash` with its callees as recorders: `type_hash` returns a symbolic typeHash, `encode_value` logs
+// WHICH declared member (by address of its kind) it is asked to encode with WHICH JSON value and returns a symbolic
+// word or an error. The message object holds a symbolic subset of the declared members "a", "b" and an undeclared
+// member "c". Specification: Ok iff exactly the declared members are present and every value encodes; then the result
+// is one Keccak over typeHash || word(a) || word(b) in DECLARATION order, each value paired with its own member; any
+// missing or undeclared member and any encoding error is an error and nothing is hashed.
+static mut TH_CALLS: usize = 0;
+static mut TH_KIND_OK: bool = false;
+static mut TH_OUT: [u8; 32] = [0; 32];
+static mut EV_CALLS: usize = 0;
+static mut EV_MEMBER: [usize; 3] = [9; 3];
+static mut EV_VALUE: [u64; 3] = [0; 3];
+static mut EV_OUT: [[u8; 32]; 3] = [[0; 32]; 3];
+static mut EV_FAIL: [bool; 3] = [false; 3];
+impl Types {
+    fn __verif_type_hash(&self, kind: &str) -> Result<Digest> {
+        unsafe {
+            TH_CALLS += 1;
+            TH_KIND_OK = bytes_eq(kind.as_bytes(), b"T");
+            let out: [u8; 32] = kani::any();
+            TH_OUT = out;
+            Ok(Digest(out))
+        }
+    }
+    fn __verif_encode_value(&self, kind: &MemberKind, value: Value) -> Result<[u8; 32]> {
+        unsafe {
+            let i = EV_CALLS;
+            assert!(i < 3, "more values encoded than members declared");
+            let members = &DEFS[0].1;
+            EV_MEMBER[i] = if core::ptr::eq(kind, &members[0].kind) { 0 } else if core::ptr::eq(kind, &members[1].kind) { 1 } else { 7 };
+            EV_VALUE[i] = value.as_u64().unwrap_or(99);
+            core::mem::forget(value);
+            EV_CALLS = i + 1;
+            let fail: bool = kani::any();
+            EV_FAIL[i] = fail;
+            if fail {
+                return Err(anyhow::Error::msg("value does not conform to its type"));
+            }
+            let out: [u8; 32] = kani::any();
+            EV_OUT[i] = out;
+            Ok(out)
+        }
+    }
+}
+crate::verif_harness! {
+    #[kani::stub(crate::typeddata::Types::type_definition, crate::typeddata::Types::__verif_type_definition)]
+    #[kani::stub(crate::typeddata::Types::type_hash, crate::typeddata::Types::__verif_type_hash)]
+    #[kani::stub(crate::typeddata::Types::encode_value, crate::typeddata::Types::__verif_encode_value)]
+    #[kani::stub(std::hash::RandomState::new, random_state_stub)]
+    #[kani::stub(ethdigest::Digest::of, crate::__verif_common::digest_of_stub)]
+    #[kani::unwind(14)]
+    fn c08_struct_hash() {
+        unsafe {
+            DEFS = vec![("T", vec![member("a", MemberKind::Bool), member("b", MemberKind::String)])];
+            TH_CALLS = 0;
+            EV_CALLS = 0;
+        }
+        let present: [bool; 3] = kani::any();
+        let mut data = JsonObject::new();
+        // inserted in an order that is neither declaration nor key order
+        if present[2] { data.insert("c".to_string(), Value::Number(serde_json::Number::from(3u64))); }
+        if present[1] { data.insert("b".to_string(), Value::Number(serde_json::Number::from(2u64))); }
+        if present[0] { data.insert("a".to_string(), Value::Number(serde_json::Number::from(1u64))); }
+        let types = empty_types();
+        let got = types.struct_hash("T", data);
+        let conforming = present[0] && present[1] && !present[2];
+        kani::cover!(got.is_ok(), "hashed");
+        kani::cover!(conforming && got.is_err(), "encoding error propagated");
+        kani::cover!(!present[0] && present[1], "first member missing");
+        kani::cover!(present[0] && !present[1], "second member missing");
+        kani::cover!(present[0] && present[1] && present[2], "undeclared member");
+        unsafe {
+            match &got {
+                Ok(d) => {
+                    assert!(conforming, "object with a missing or an undeclared member hashed");
+                    assert!(TH_CALLS == 1 && TH_KIND_OK, "typeHash of the struct's own type");
+                    assert!(EV_CALLS == 2 && !EV_FAIL[0] && !EV_FAIL[1], "every member encoded, no error swallowed");
+                    assert!(EV_MEMBER[0] == 0 && EV_VALUE[0] == 1, "first word is not member a with a's value");
+                    assert!(EV_MEMBER[1] == 1 && EV_VALUE[1] == 2, "second word is not member b with b's value");
+                    let mut pre = [0u8; 96];
+                    pre[0..32].copy_from_slice(&TH_OUT);
+                    pre[32..64].copy_from_slice(&EV_OUT[0]);
+                    pre[64..96].copy_from_slice(&EV_OUT[1]);
+                    assert!(digest_calls() == 1);
+                    digest_expect(0, &pre, &d.0);
+                }
+                Err(_) => {
+                    assert!(!conforming || EV_FAIL[0] || EV_FAIL[1], "conforming object refused");
+                    assert!(digest_calls() == 0, "something was hashed although the object does not conform");
+                }
+            }
+        }
+        core::mem::forget(got);
+    }
+}
